@@ -202,6 +202,10 @@ fn buffer_op(b: &mut PushBuffer<i32>, m: &str, a: &[Value]) -> Value {
         "peek_newest" => opt(b.peek_newest().copied(), |x| json!(x)),
         "iter" => val(json!(b.iter().copied().collect::<Vec<i32>>())),
         "iter_len" => val(json!(b.iter().len())),
+        "iter_skip" => val(json!(b.iter().skip(us(&a[0])).copied().collect::<Vec<i32>>())),
+        "iter_nth" => opt(b.iter().nth(us(&a[0])).copied(), |x| json!(x)),
+        "iter_step" => val(json!(b.iter().step_by(us(&a[0]).max(1)).copied().collect::<Vec<i32>>())),
+        "iter_last" => opt(b.iter().last().copied(), |x| json!(x)),
         _ => json!({"t": "harness", "v": "unknown method"}),
     }
 }
